@@ -39,6 +39,15 @@ theorem C02_no_empty_brackets (ts : List Tok) : ¬ Lang (.lp :: .rp :: ts) := by
   have := (sh_accept_iff_lang _).2 h
   simp [runSh, stepSh] at this
 
+/-- **C02 (characters).** The character classes the scanner works with — extracted from the regex engine over all code points on every run —
+are the documented ones: ASCII digits in keys and package numbers, the five whitespace characters of `WS`, the six operator spellings,
+the four bracket characters. (The repeatability `a..b` is matched with the engine's `\d`, see DESIGN §3.3.) -/
+theorem C02_classes_as_documented :
+    cc_intDigit = [(48, 57)] ∧ cc_repFirstMax = [(49, 57)] ∧ cc_ws = [(9, 10), (12, 13), (32, 32)] ∧
+    cc_opOr = [(79, 79), (111, 111), (8744, 8744)] ∧ cc_opXor = [(88, 88), (120, 120), (8891, 8891)] ∧
+    cc_opAnd = [(85, 85), (117, 117), (8743, 8743)] ∧
+    cc_lpar = [(40, 40)] ∧ cc_rpar = [(41, 41)] ∧ cc_lsqb = [(91, 91)] ∧ cc_rsqb = [(93, 93)] := by decide
+
 /-- **C02 (totality of the model).** -/
 theorem C02_model_total (cs : List Char) :
     (∃ ps, resolveParse cs = .ahb ps) ∨ (∃ e, resolveParse cs = .cond e) ∨ resolveParse cs = .syntaxError := by
